@@ -285,6 +285,7 @@ func histLen(r *vrt.Rand, minN, big int) int {
 
 func checkHistory(c *vrt.Ctx) {
 	checkStructuredHistories(c)
+	checkRejectedCalls(c)
 	perType := c.Pick(600, 6000)
 	big := c.Pick(700, 2500)
 	const maxOps = 12
@@ -335,6 +336,16 @@ func checkHistory(c *vrt.Ctx) {
 				continue
 			}
 			n := prev
+			if r.Chance(0.2) {
+				// a documented rejection, recovered, in the middle of the history
+				rjs := rejectionsFor(t.name, obj, n)
+				rj := rjs[r.Intn(len(rjs))]
+				if !applyRejection(c, t, obj, n, rj, r, trail) {
+					return
+				}
+				trail += " [rejected " + rj.name + "]"
+				continue
+			}
 			m := t.methods[r.Intn(len(t.methods))]
 			mode := r.Intn(3)
 			if mode == dstSrc && !m.aliasOK {
